@@ -97,6 +97,19 @@ structure MigPh (s : Sys) (r : MmuReq) (fl : Option (MigCmd × MigAt)) (ws : WSt
         (s.cp g) (s.cm g)
   ws : flWs fl ws
 
+/-- a frame the driver is going to give back (`ReleasePhysicalPage`): it lies in the address range of device
+    `d` (GPU `d-1`, one of the two GPUs with a modelled controller) and inside that GPU's memory -/
+def RelOK (s : Sys) (f : Nat) : Prop :=
+  ∃ d, (d = 1 ∨ d = 2) ∧ s.drv.alloc.deviceOf f = some d ∧ f + (1 <<< s.drv.alloc.lg) ≤ (s.w.sys.mem (d - 1)).size
+
+/-- what the release of old frames needs: the allocator's ranges are consistent, the old frame of every queued
+    migrate command and the remembered old frame of the command in flight (`currentlyMigratingFromPAddr`) can be
+    given back to the device they came from -/
+structure RelInv (s : Sys) : Prop where
+  ranges : RangeOK s.drv.alloc
+  queued : ∀ m ∈ s.drv.toCP, RelOK s m.rd
+  flying : s.drv.one = true → RelOK s s.drv.oldF
+
 structure DrvIdle (d : Drv) : Prop where
   handling : d.handling = false
   cur : d.cur = none
@@ -129,6 +142,7 @@ structure Inv (s : Sys) : Prop where
   logIds : s.drv.migLog.map (·.id) = List.range s.drv.nMig
   pending : ∀ r ∈ s.drv.mmuIn, ReqOK s r ∧ PagesOK s r ∧ r.id = s.drv.taken.length
   ph : Phase s
+  rel : RelInv s
 
 end SY
 end C19
